@@ -36,6 +36,13 @@ CHECKS = {
         note="Trusted: pyvc's encoding of Python semantics, z3/cvc5, the assumed contract of list.sort (stable permutation), two assumed pigeonhole lemma instances in Index.update, ownership of the index containers (A-alias). TinyFlux-level code (database.py) is covered only by the bounded stand-in in this round.",
         design_ref="DESIGN.md 3.4, 5 (C06), 12",
     ),
+    "C07": dict(
+        category="other",
+        technique="contract-based deductive verification (pyvc) of len(db) and all() on both branches; the twelve getters only by a labelled bounded differential stand-in",
+        text="Proved: TinyFlux.__len__ equals the number of stored points whether answered by a valid index or by storage; TinyFlux.all returns every stored point once, in insertion order or stably time-sorted. The getters (get_measurements, get_tag_keys, get_tag_values, get_field_keys, get_field_values, get_timestamps, their index counterparts and the per-measurement versions) are NOT yet under contract: they are compared with a reference model after every step of every history of the bounded stand-in (labelled bounded). Level 'other' because most of the cone is bounded.",
+        note="Relative to the abstract Storage contract (CSVStorage.__len__ counting physical lines is design-time defect #13, not yet triaged by this check). Stand-in bound: see evidence.coverage.bounded.",
+        design_ref="DESIGN.md 5 (C07), 12.4",
+    ),
     "C10": dict(
         category="proof",
         technique="contract-based deductive verification (pyvc): each Measurement forwarder is verified against the callee's contract with measurement = self._name (arguments bound to the callee's real signature); remaining forwarders by bounded stand-in",
